@@ -88,8 +88,8 @@ func runRT(tables []WTable, fresh bool) []rtRes {
 	res := make([]rtRes, len(tables))
 	start := 0
 	for start < len(tables) {
-		dir := scratchDir("/dev/shm")
-		r := core.RunChild("rt", rtIn{Tables: tables[start:], Fresh: fresh}, core.ChildOpt{Timeout: 5 * time.Minute, Dir: dir, KeepDir: true, GOMAXPROCS: 2})
+		dir := scratchDir(fastScratch)
+		r := runChild("rt", rtIn{Tables: tables[start:], Fresh: fresh}, core.ChildOpt{Timeout: 5 * time.Minute, Dir: dir, KeepDir: true, GOMAXPROCS: 2})
 		os.RemoveAll(dir)
 		if r.Completed {
 			var out []rtRes
@@ -537,7 +537,7 @@ func monitorGenericRoundTrip(c *core.Ctx) {
 			Cursor []byte
 		}{genOffset(rng), []byte(cu)})
 	}
-	r := core.RunChild("grt", in, core.ChildOpt{Timeout: 3 * time.Minute})
+	r := runChild("grt", in, core.ChildOpt{Timeout: 3 * time.Minute})
 	if !r.Completed {
 		if r.TimedOut {
 			c.Inconclusive("generic roundtrip watchdog")
